@@ -211,6 +211,15 @@ Theorem tie_getters s :
      VSet (borrowers s); VNat (length (queue s))].
 Proof. cbn. destruct (total s); repeat split. Qed.
 
+(* ---- C08 clause (a) on the regenerated code: acquire_on_behalf_of(b) (hence acquire()) called from an effectively
+   cancelled scope raises the cancellation and touches nothing - for EVERY state and borrower: with a token free,
+   with none free, for a borrower that already holds a token or already waits.  In the source the cancellation check
+   is the first statement, before acquire_on_behalf_of_nowait and both RuntimeError tests. ---- *)
+Theorem cancelled_entry_noeffect s t b :
+  exists l, exec lim_acquire_on_behalf_of_entry t (loc_entry_cancelled (Some b)) log0 (core s) =
+            (l, log0, core s, OCancelled).
+Proof. unfold lim_acquire_on_behalf_of_entry. cbn. eexists. reflexivity. Qed.
+
 (* ---- the machine built from the generated segments is the model ---- *)
 Theorem gstep_eq_step s o : gstep lim_prog s o = step s o.
 Proof.
@@ -360,6 +369,9 @@ Example ex_f1_setter_wakes_while_free :
   let s := gfinal (Some 0) [AcqOn 1 1; AcqOn 2 2; AcqOn 3 3; SetTotal 4 (Some 2)] in
   length (borrowers s) = 2 /\ length (queue s) = 1 /\ resv s = [2; 1].
 Proof. vm_compute. repeat split. Qed.
+Example ex_check_after_effect_is_stuck_cancelled :
+  snd (exec (SSeq SAddBorrower SCkIf) 1 (loc_entry_cancelled (Some 1)) log0 (core (init (Some 1)))) = OStuck.
+Proof. vm_compute. reflexivity. Qed.
 Example ex_check_after_effect_is_stuck :
   snd (exec (SSeq SAddBorrower SCkIf) 1 (loc_entry (Some 1) None) log0 (core (init (Some 1)))) = OStuck.
 Proof. vm_compute. reflexivity. Qed.
